@@ -265,9 +265,9 @@ class TimedList(Generic[Item]):
 
         """
         if isinstance(val, Series):
-            val = val.data.to_frame().T
+            val = val.data.to_frame().T.infer_objects()
         if isinstance(val, pd.Series):
-            val = pd.DataFrame(val).T
+            val = pd.DataFrame(val).T.infer_objects()
         if isinstance(val, TimedList):
             val = val.df
         obj = self.__class__(pd.concat([self.df, val], ignore_index=True))
